@@ -402,6 +402,48 @@ func main() {
 				break
 			}
 
+			// ---- a waiter on several keys is woken by a push to one key and finds an element in an earlier
+			// one (both pushed in one transaction): whichever it takes, nobody may stay blocked on a list
+			// that still holds an element
+			{
+				vs := redisemu.VerifNewStore("")
+				w1, w2, p := vs.NewClient(), vs.NewClient(), vs.NewClient()
+				ch1 := async(w1, "BLPOP", "ma", "mb", "0")
+				waitBlocked(w1, time.Second)
+				time.Sleep(2 * time.Millisecond)
+				ch2 := async(w2, "BLPOP", "mb", "0")
+				waitBlocked(w2, time.Second)
+				time.Sleep(2 * time.Millisecond)
+				do(p, "MULTI")
+				do(p, "RPUSH", "mb", "y")
+				do(p, "RPUSH", "ma", "x")
+				do(p, "EXEC")
+				steps := []string{"W1: BLPOP ma mb 0", "W2: BLPOP mb 0", "P: MULTI; RPUSH mb y; RPUSH ma x; EXEC"}
+				r1, ok1 := get(ch1, 800*time.Millisecond)
+				r2, ok2 := get(ch2, 800*time.Millisecond)
+				la, lb := strings.TrimSpace(do(p, "LLEN", "ma")), strings.TrimSpace(do(p, "LLEN", "mb"))
+				stats["two_key_wake_checks"]++
+				if !ok1 {
+					fail("two-key-wake", round, steps, fmt.Sprintf("W1 is still blocked (LLEN ma %s, LLEN mb %s)", la, lb))
+					do(p, "CLIENT", "UNBLOCK", fmt.Sprint(w1.ID()))
+					get(ch1, time.Second)
+				} else if !ok2 && lb != ":0" {
+					detail := fmt.Sprintf("lost wake-up: W1 was served %q; W2 is still blocked on mb although mb holds an element (LLEN mb %s) and nobody else is about to take it", r1.reply, lb)
+					fail("two-key-wake", round, steps, detail)
+				}
+				_ = r2
+				if !ok2 {
+					do(p, "CLIENT", "UNBLOCK", fmt.Sprint(w2.ID()))
+					get(ch2, time.Second)
+				}
+				w1.Close()
+				w2.Close()
+				p.Close()
+			}
+			if failures > 0 {
+				break
+			}
+
 			// ---- a waiter on several keys leaves at the very moment a push to one of them wakes it (the
 			// unblock and the push are one transaction): the wake-up it did not use belongs to the next
 			// waiter of the key that was pushed to, whichever of its keys that is
